@@ -121,6 +121,12 @@ def obligations(tier, rng):
                 for mode in ['offline'] + (['pastified'] if fut else ['online']):
                     out.append(ob('C12', 'dt', 'dt/%s/nested/p=%s/q=%s/out=%s' % (mode, text(d), text(q), text(m)),
                                   defs=[['p', d], ['q', q]], main=m, N=N, mode=mode))
+    # names of input variables whose last occurrence sits under a repeated sub-formula
+    GX = ('geq', X, ('const', 3.0))
+    for m in [('and', GX, ('once_t', GX, 0, 1)), ('or', ('prev', X), ('not', ('prev', X))), ('and', ('and', P, Z), ('once', ('and', P, Z)))]:
+        for mode in ('offline', 'online'):
+            out.append(ob('C12', 'dt', 'dt/%s/dup/out=%s' % (mode, text(m)), defs=[['p', ('since', X, Y)]] if refsem.has(m, set()) or 'p' in variables(m) else [],
+                          main=m, N=N, mode=mode))
     # different horizons of sub-spec and main
     for d, m in [(('eventually_t', X, 0, 1), ('and', P, ('eventually_t', Y, 0, 3))), (('next', X), ('or', P, ('always_t', Y, 1, 2))),
                  (('once_t', X, 0, 1), ('and', P, ('eventually_t', Y, 0, 2)))]:
